@@ -21,7 +21,7 @@ import torch
 
 from inferno.extra import ExactNeuron
 from inferno.learn import MSTDP, MSTDPET, STDP, TripletSTDP
-from inferno.neural import Conv2D, DeltaCurrent, LinearDense, LinearDirect, LinearLateral, Serial
+from inferno.neural import Biclique, Conv2D, DeltaCurrent, LinearDense, LinearDirect, LinearLateral, Serial
 
 import leanbridge as lb
 import transval
@@ -138,7 +138,7 @@ def make_case(rng, variant, sign, nearest, delaymode, conn, geom, B, T, red, upd
 
 # --------------------------------------------------------------------------------------------------
 # real side
-def build(case):
+def build_conn(case):
     p, geom, conn, B = case["params"], case["geom"], case["conn"], case["B"]
     dt = p["dt"]
     delay = None if case["delaymode"] == "none" else case["D"] * dt
@@ -159,21 +159,35 @@ def build(case):
     c.updater = c.defaultupdater()
     if delay is not None:
         c.delay = (torch.tensor(case["delays"], dtype=torch.float64) * dt).reshape(c.delay.shape)
-    n = ExactNeuron(outshape, dt, rest_v=-60.0, thresh_v=-45.0, batch_size=B)
-    layer = Serial(c, n)
-    red = torch.sum if case["red"] == "sum" else torch.mean
-    delayed = case["delaymode"] == "delayed"
+    return c, outshape
+
+
+def trainer_kwargs(case, p=None):
+    """hyper-parameters of a case as the keyword arguments of the trainer constructor / register_cell"""
+    p = p or case["params"]
     kind = case["variant"].split("-")[0]
-    mode = "nearest" if p["nearest"] else "cumulative"
-    if kind == "stdp":
-        tr = STDP(p["lrPost"], p["lrPre"], p["tcPost"], p["tcPre"], delayed=delayed, trace_mode=mode, batch_reduction=red)
-    elif kind == "mstdp":
-        tr = MSTDP(p["lrPost"], p["lrPre"], p["tcPost"], p["tcPre"], delayed=delayed, trace_mode=mode, batch_reduction=red)
-    elif kind == "mstdpet":
-        tr = MSTDPET(p["lrPost"], p["lrPre"], p["tcPost"], p["tcPre"], p["tcz"], trace_mode=mode, batch_reduction=red)
+    kw = {"trace_mode": "nearest" if p["nearest"] else "cumulative",
+          "batch_reduction": torch.sum if case["red"] == "sum" else torch.mean}
+    if kind != "mstdpet":
+        kw["delayed"] = case["delaymode"] == "delayed"
+    if kind == "triplet":
+        kw.update(lr_post_pair=p["aPost"], lr_post_triplet=p["bPost"], lr_pre_pair=p["aPre"], lr_pre_triplet=p["bPre"],
+                  tc_post_fast=p["tcPostFast"], tc_post_slow=p["tcPostSlow"], tc_pre_fast=p["tcPreFast"], tc_pre_slow=p["tcPreSlow"])
     else:
-        tr = TripletSTDP(p["aPost"], p["bPost"], p["aPre"], p["bPre"], p["tcPostFast"], p["tcPostSlow"],
-                         p["tcPreFast"], p["tcPreSlow"], delayed=delayed, trace_mode=mode, batch_reduction=red)
+        kw.update(lr_post=p["lrPost"], lr_pre=p["lrPre"], tc_post=p["tcPost"], tc_pre=p["tcPre"])
+        if kind == "mstdpet":
+            kw["tc_eligibility"] = p["tcz"]
+    return kw
+
+
+TRAINERS = {"stdp": STDP, "mstdp": MSTDP, "mstdpet": MSTDPET, "triplet": TripletSTDP}
+
+
+def build(case):
+    c, outshape = build_conn(case)
+    n = ExactNeuron(outshape, case["params"]["dt"], rest_v=-60.0, thresh_v=-45.0, batch_size=case["B"])
+    layer = Serial(c, n)
+    tr = TRAINERS[case["variant"].split("-")[0]](**trainer_kwargs(case))
     tr.register_cell("cell", layer.cell)
     return layer, tr, outshape
 
@@ -188,8 +202,24 @@ def flat(x):
     return None if x is None else x.detach().reshape(-1).to(torch.float64).numpy().copy()
 
 
+def call_trainer(tr, sig, t):
+    if sig is None:
+        tr()
+    elif sig["mode"] == "scalar":
+        tr(sig["v"][t], scale=sig["scale"])
+    else:
+        tr(torch.tensor(sig["v"][t], dtype=torch.float64), scale=sig["scale"])
+
+
+def updates_at(case, t):
+    """does the harness call Connection.update() after step t?"""
+    return case["update"] == "each" or t == case["T"] - 1 or (case.get("clear_at") is not None and t == case["clear_at"] - 1)
+
+
 def run_real(case):
-    """→ {'steps': [(pos, neg, weight|None)], 'w0': …} or {'exc': …, 'step': t, 'steps': …}"""
+    """→ {'steps': [(pos, neg, weight|None)], 'w0': …} or {'exc': …, 'step': t, 'steps': …}.
+    With `clear_at = t0` the run is two EPISODES: after step t0-1 the weights are updated, then
+    `trainer.clear(keepshape=clear_keep)` and `synapse.clear()` are called before step t0."""
     torch.set_default_dtype(torch.float64)
     out = {"steps": []}
     t = -1
@@ -198,21 +228,18 @@ def run_real(case):
             layer, tr, outshape = build(case)
             inshape = tuple(layer.connection.inshape)
             out["w0"] = flat(layer.connection.weight)
-            sig = case["signal"]
             for t in range(case["T"]):
+                if case.get("clear_at") == t:
+                    tr.clear(keepshape=True) if case.get("clear_keep") else tr.clear()
+                    layer.connection.synapse.clear()
                 x = bits_tensor(case["pre"][t], inshape)
                 o = bits_tensor(case["post"][t], outshape).bool()
                 layer(x, neuron_kwargs={"override": o})
-                if sig is None:
-                    tr()
-                elif sig["mode"] == "scalar":
-                    tr(sig["v"][t], scale=sig["scale"])
-                else:
-                    tr(torch.tensor(sig["v"][t], dtype=torch.float64), scale=sig["scale"])
+                call_trainer(tr, case["signal"], t)
                 acc = layer.cell.updater.weight
                 pos, neg = flat(acc.pos), flat(acc.neg)
                 w = None
-                if case["update"] == "each" or t == case["T"] - 1:
+                if updates_at(case, t):
                     layer.connection.update()
                     w = flat(layer.connection.weight)
                 out["steps"].append((pos, neg, w))
@@ -220,6 +247,61 @@ def run_real(case):
         out["exc"] = f"{type(e).__name__}: {e}"
         out["step"] = t
     return out
+
+
+def run_real_multi(mc):
+    """Two cells trained by ONE trainer (per-cell hyper-parameter overrides in register_cell) in a Biclique layer:
+    'shared-post' = two connections into one neuron group, 'shared-conn' = one connection into two neuron groups.
+    → list of per-updater results in run_real's format (two for shared-post, one for shared-conn)"""
+    torch.set_default_dtype(torch.float64)
+    cells, topo = mc["cells"], mc["multi"]
+    outs = [{"steps": []} for _ in range(2 if topo == "shared-post" else 1)]
+    t = -1
+    try:
+        with torch.no_grad():
+            c0 = cells[0]
+            dt, B = c0["params"]["dt"], c0["B"]
+            if topo == "shared-post":
+                conns = [build_conn(c)[0] for c in cells]
+                outshape = (c0["geom"]["nout"],)
+                neurons = [ExactNeuron(outshape, dt, rest_v=-60.0, thresh_v=-45.0, batch_size=B)]
+                layer = Biclique([("c0", conns[0]), ("c1", conns[1])], [("n0", neurons[0])])
+                pairs = [("c0", "n0"), ("c1", "n0")]
+            else:
+                conns = [build_conn(c0)[0]]
+                outshape = (c0["geom"]["nout"],)
+                neurons = [ExactNeuron(outshape, dt, rest_v=-60.0, thresh_v=-45.0, batch_size=B) for _ in range(2)]
+                layer = Biclique([("c0", conns[0])], [("n0", neurons[0]), ("n1", neurons[1])])
+                pairs = [("c0", "n0"), ("c0", "n1")]
+            tr = TRAINERS[c0["variant"].split("-")[0]](**trainer_kwargs(c0, mc["defaults"]))
+            for i, (cn, nn) in enumerate(pairs):
+                kw = trainer_kwargs(cells[i])
+                kw.pop("batch_reduction")
+                tr.register_cell(f"cell{i}", layer.get_cell(cn, nn), **kw)
+            for o, c in zip(outs, conns):
+                o["w0"] = flat(c.weight)
+            for t in range(c0["T"]):
+                if topo == "shared-post":
+                    inputs = {f"c{i}": (bits_tensor(cells[i]["pre"][t], tuple(conns[i].inshape)),) for i in range(2)}
+                    nkw = {"n0": {"override": bits_tensor(c0["post"][t], outshape).bool()}}
+                else:
+                    inputs = {"c0": (bits_tensor(c0["pre"][t], tuple(conns[0].inshape)),)}
+                    nkw = {f"n{i}": {"override": bits_tensor(cells[i]["post"][t], outshape).bool()} for i in range(2)}
+                layer(inputs, neuron_kwargs=nkw)
+                call_trainer(tr, c0["signal"], t)
+                for o, c in zip(outs, conns):
+                    acc = c.updater.weight
+                    pos, neg = flat(acc.pos), flat(acc.neg)
+                    w = None
+                    if updates_at(c0, t):
+                        c.update()
+                        w = flat(c.weight)
+                    o["steps"].append((pos, neg, w))
+    except Exception as e:
+        for o in outs:
+            o["exc"] = f"{type(e).__name__}: {e}"
+            o["step"] = t
+    return outs
 
 
 # --------------------------------------------------------------------------------------------------
@@ -255,7 +337,27 @@ def tf(b):
     return "T" if b else "F"
 
 
+def episode_slice(case, a, b):
+    """the steps a..b-1 of a case as a stand-alone case (an EPISODE starts from cleared trainer state)"""
+    c = dict(case)
+    c.update({"T": b - a, "pre": case["pre"][a:b], "post": case["post"][a:b], "clear_at": None})
+    if case["signal"] is not None:
+        c["signal"] = dict(case["signal"], v=case["signal"]["v"][a:b])
+    return c
+
+
 def request_lines(case):
+    """driver requests of a case: one per weight — per episode when the run is cleared at `clear_at`
+    (first all weights of episode 1, then all weights of episode 2); and the per-weight train strings"""
+    t0 = case.get("clear_at")
+    if t0 is None:
+        return request_lines1(case)
+    l1, _ = request_lines1(episode_slice(case, 0, t0))
+    l2, _ = request_lines1(episode_slice(case, t0, case["T"]))
+    return l1 + l2, request_lines1(case)[1]
+
+
+def request_lines1(case):
     """one driver request per weight; also the per-weight train strings (for reports)"""
     p, T, B = case["params"], case["T"], case["B"]
     pre, post = trains(case)
@@ -306,7 +408,14 @@ def close(a, b):
 
 
 def expected_tables(case, resp):
-    """from the driver's responses: per stream ('M','S') arrays [nw, T] of per-step pos/neg (+ masks)"""
+    """from the driver's responses: per stream ('M','S') arrays [nw, T] of per-step pos/neg (+ masks);
+    the two episodes of a cleared run are concatenated in time"""
+    t0 = case.get("clear_at")
+    if t0 is not None:
+        nw = len(resp) // 2
+        a = expected_tables(episode_slice(case, 0, t0), resp[:nw])
+        b = expected_tables(episode_slice(case, t0, case["T"]), resp[nw:])
+        return {k: [np.concatenate([x, y], axis=1) for x, y in zip(a[k], b[k])] for k in a}
     T = case["T"]
     out = {}
     for name in ("M", "S"):
@@ -339,12 +448,8 @@ def judge(case, real, tables):
         wexp = real["w0"].copy() if "w0" in real else None
         for t in range(len(real["steps"])):
             rp, rn, rw = real["steps"][t]
-            if case["update"] == "each":
-                cpos, cneg = pos[:, t].copy(), neg[:, t].copy()
-                cpm, cnm = pm[:, t].copy(), nm[:, t].copy()
-            else:
-                cpos, cneg = cpos + pos[:, t], cneg + neg[:, t]
-                cpm, cnm = cpm | pm[:, t], cnm | nm[:, t]
+            cpos, cneg = cpos + pos[:, t], cneg + neg[:, t]
+            cpm, cnm = cpm | pm[:, t], cnm | nm[:, t]
             for label, exp, em, obs in (("pos", cpos, cpm, rp), ("neg", cneg, cnm, rn)):
                 if obs is None:
                     if em.any():
@@ -366,11 +471,8 @@ def judge(case, real, tables):
                     break
             if found:
                 break
-            if rw is not None:
-                if case["update"] == "each":
-                    wexp = wexp + (cpos - cneg)
-                else:
-                    wexp = wexp + (cpos - cneg)
+            if rw is not None:          # Connection.update() applied and cleared the accumulators
+                wexp = wexp + (cpos - cneg)
                 if diag is not None:
                     wexp = np.where(diag, 0.0, wexp)
                 if rw.shape != wexp.shape:
@@ -381,6 +483,8 @@ def judge(case, real, tables):
                     w = int(np.argmin(ok))
                     found = (name, w, t, "weight after update()", float(wexp[w]), float(rw[w]))
                     break
+                cpos, cneg = np.zeros(nw), np.zeros(nw)
+                cpm, cnm = np.zeros(nw, bool), np.zeros(nw, bool)
         if found:
             problems.append(found)
     return problems
@@ -404,7 +508,8 @@ def describe(case, w, tstr):
     return {"variant": case["variant"], "params": case["params"], "connection": case["conn"], "geometry": case["geom"],
             "delay_mode": case["delaymode"], "delay_steps_of_this_weight": case["delays"][w], "max_delay_steps": case["D"],
             "batch": case["B"], "reduction": case["red"], "update": case["update"], "signal": case["signal"],
-            "weight_index": w, "history(pre:post per field element, ';' between batch samples)": tstr}
+            "weight_index": w, "history(pre:post per field element, ';' between batch samples)": tstr,
+            "trainer_cleared_before_step": case.get("clear_at"), "clear_keepshape": case.get("clear_keep")}
 
 
 class Runner:
@@ -413,6 +518,7 @@ class Runner:
     def __init__(self, ctx, ex):
         self.ctx, self.ex = ctx, ex
         self.cases = []
+        self.multis = []
         self.sampled = set()
 
     def add(self, case, family):
@@ -422,8 +528,68 @@ class Runner:
             self.ex.samples.append({"family": family, **{k: case[k] for k in ("variant", "params", "conn", "geom", "B", "T", "delaymode",
                                                                                "delays", "red", "update", "pre", "post", "signal")}})
 
+    def add_multi(self, mc, family):
+        self.multis.append((mc, family))
+        if family not in self.sampled:
+            self.sampled.add(family)
+            self.ex.samples.append({"family": family, **mc})
+
+    def flush_multi(self):
+        """two cells under one trainer: every cell must show ITS OWN pair sum"""
+        ctx, ex = self.ctx, self.ex
+        all_lines, plan = [], []
+        for mc, family in self.multis:
+            spans, tstrs = [], []
+            for c in mc["cells"]:
+                lines, tstr = request_lines(c)
+                spans.append((len(all_lines), len(all_lines) + len(lines)))
+                all_lines += lines
+                tstrs.append(tstr)
+            plan.append((mc, family, run_real_multi(mc), spans, tstrs))
+        resp = ctx.run_driver(DRIVER, all_lines) if all_lines else []
+        for mc, family, reals, spans, tstrs in plan:
+            cells = mc["cells"]
+            kind = cells[0]["variant"].split("-")[0]
+            ex.traces_validated += 1
+            ex.count("family", family)
+            ex.count("multi_cell", f"{mc['multi']}:{cells[0]['variant']}")
+            if "exc" in reals[0]:
+                key = f"C08:raises:{kind}:multi-cell"
+                if len([f for f in ex.findings if f.key == key]) < 2:
+                    ex.findings.append(Finding("spec", key, f"{kind} trainer with two cells ({mc['multi']}) raised {reals[0]['exc']} at step {reals[0]['step']}",
+                                               {"case": mc, "raised": reals[0]["exc"], "step": reals[0]["step"]}))
+                continue
+            tabs = [expected_tables(c, resp[a:b]) for c, (a, b) in zip(cells, spans)]
+            if mc["multi"] == "shared-conn":    # one updater receives both cells' parts
+                comb = {}
+                for name in ("M", "S"):
+                    x, y = tabs[0][name], tabs[1][name]
+                    comb[name] = [x[0] + y[0], x[1] | y[1], x[2] + y[2], x[3] | y[3]]
+                jobs = [(0, cells[0], reals[0], comb, tstrs[0])]
+            else:
+                jobs = [(i, cells[i], reals[i], tabs[i], tstrs[i]) for i in range(2)]
+            for i, c, real, tab, tstr in jobs:
+                ex.evaluations += len(tstr) * len(real["steps"])
+                for w, sx in enumerate(tstr):
+                    if any("1" in x.split(":")[0] and "1" in x.split(":")[1] for f in sx.split(";") for x in f.split(",")):
+                        ex.nontriv(("multi", mc["multi"], i, tuple(sorted(c["params"].items())), tuple(sorted(cells[1 - i]["params"].items())), sx))
+                for name, w, t, what, exp, obs in judge(c, real, tab):
+                    kindf = "spec" if name == "S" else "model"
+                    key = f"C08:{'multi-cell-pair-sum' if name == 'S' else 'model-multi-cell'}:{kind}"
+                    if len([f for f in ex.findings if f.key == key]) >= 3:
+                        continue
+                    which = "the connection shared by both cells" if mc["multi"] == "shared-conn" else f"cell {i}"
+                    stream = "its own pair sum (S)" if name == "S" else "recurrence model (M)"
+                    ex.findings.append(Finding(kindf, key, f"two cells under one {kind} trainer ({mc['multi']}), {which}: {what} after step {t}: real {obs} vs {stream} {exp} "
+                                               f"[cell 0 overrides {cells[0]['params']} | cell 1 overrides {cells[1]['params']} | history {tstr[w]}]",
+                                               {"case": mc, "cell": i, "weight_index": w, "history": tstr[w], "step": t, "expected": exp,
+                                                "observed": obs, "stream": name}))
+        self.multis = []
+
     def flush(self):
         ctx, ex = self.ctx, self.ex
+        if self.multis:
+            self.flush_multi()
         all_lines, spans, reals, tstrs = [], [], [], []
         for case, family in self.cases:
             lines, tstr = request_lines(case)
@@ -439,7 +605,7 @@ class Runner:
     def judge_case(self, case, family, real, resp, tstr, record=True):
         ex = self.ex
         kind = case["variant"].split("-")[0]
-        nw = len(resp)
+        nw = len(tstr)
         if record:
             ex.traces_validated += 1
             ex.evaluations += nw * len(real["steps"])
@@ -455,7 +621,10 @@ class Runner:
             a, b = (p["aPost"], p["aPre"]) if kind == "triplet" else (p["lrPost"], p["lrPre"])
             ex.count("sign_mode", {(True, False): "hebbian", (False, True): "anti-hebbian", (True, True): "potentiative",
                                    (False, False): "depressive"}[(a >= 0, b >= 0)])
-            cfgkey = (case["variant"], tuple(sorted(p.items())), case["delaymode"], case["red"], case["B"], repr(case["signal"]))
+            if case.get("clear_at") is not None:
+                ex.count("episodes", "clear(keepshape=True)" if case.get("clear_keep") else "clear()")
+            cfgkey = (case["variant"], tuple(sorted(p.items())), case["delaymode"], case["red"], case["B"], repr(case["signal"]),
+                      case.get("clear_at"), case.get("clear_keep"))
             for w, s in enumerate(tstr):
                 pre_any = any("1" in x.split(":")[0] for f in s.split(";") for x in f.split(","))
                 post_any = any("1" in x.split(":")[1] for f in s.split(";") for x in f.split(","))
@@ -511,6 +680,28 @@ def combos(include_delayed_et=False):
             continue
         out.append((v, sg, near, dm))
     return out
+
+
+def make_multicell(rng, variant, topo, near_pair, dm):
+    """two dense cells under ONE trainer whose register_cell overrides differ in rates, time constants and trace mode"""
+    T, B = rng.randint(5, 9), rng.choice([1, 2])
+    red, update = rng.choice(["sum", "mean"]), rng.choice(["each", "end"])
+    nout = rng.randint(1, 3)
+    g0 = {"nin": rng.randint(1, 3), "nout": nout}
+    g1 = g0 if topo == "shared-conn" else {"nin": rng.randint(1, 3), "nout": nout}
+    c0 = make_case(rng, variant, SIGNS[rng.randrange(4)], near_pair[0], dm, "dense", g0, B, T, red, update)
+    c1 = make_case(rng, variant, SIGNS[rng.randrange(4)], near_pair[1], dm, "dense", g1, B, T, red, update, D=c0["D"])
+    for k in ("dt",):
+        c1["params"][k] = c0["params"][k]
+    c1["signal"] = c0["signal"]
+    c1["delaymode"] = c0["delaymode"]
+    if topo == "shared-post":
+        c1["post"] = c0["post"]
+    else:
+        c1["pre"], c1["delays"], c1["D"] = c0["pre"], c0["delays"], c0["D"]
+    defaults = make_params(rng, variant, SIGNS[rng.randrange(4)], rng.random() < 0.5)
+    defaults["dt"] = c0["params"]["dt"]
+    return {"multi": topo, "variant": variant, "cells": [c0, c1], "defaults": defaults}
 
 
 def explore(ctx) -> Exploration:
@@ -588,11 +779,42 @@ def explore(ctx) -> Exploration:
         R.add(case, "random-population")
     R.flush()
 
+    # (4) EPISODES: train, update, trainer.clear(keepshape=True | False) + synapse.clear(), train again — the second
+    #     episode must show the pair sum of its own spikes only (reducers with history: triplet slow traces, delayed modes)
+    nep = 120 if heavy else 40
+    for r in range(nep):
+        v = rng.choice(["triplet", "triplet", "stdp", "mstdp-s", "mstdp-t", "mstdpet-s", "mstdpet-t"])
+        dm = "delayed" if (v != "triplet" and not v.startswith("mstdpet") and rng.random() < 0.8) else rng.choice(DELAYMODES)
+        one = r % 2 == 0
+        geom = {"nin": 1, "nout": 1} if one else {"nin": rng.randint(1, 3), "nout": rng.randint(1, 3)}
+        T = rng.randint(6, 10)
+        case = make_case(rng, v, SIGNS[rng.randrange(4)], rng.random() < 0.5, dm, "dense", geom, 1 if one else rng.choice([1, 2]), T,
+                         rng.choice(["sum", "mean"]), rng.choice(["each", "end"]))
+        case["clear_at"] = rng.randint(2, T - 3)
+        case["clear_keep"] = r % 4 != 3
+        if one:     # dense activity around the clear so that stale history would pair
+            case["pre"] = [["1" if rng.random() < 0.7 else "0"] for _ in range(T)]
+            case["post"] = [["1" if rng.random() < 0.7 else "0"] for _ in range(T)]
+        R.add(case, "episodes")
+    R.flush()
+
+    # (5) MULTI-CELL trainers: two cells sharing a postsynaptic group (two connections into one group) or sharing a
+    #     connection (one connection into two groups), registered with DIFFERENT per-cell overrides
+    nmc = 90 if heavy else 30
+    for r in range(nmc):
+        v = ["stdp", "mstdp-s", "triplet", "mstdpet-s", "stdp", "mstdp-t"][r % 6]
+        topo = "shared-post" if r % 2 == 0 else "shared-conn"
+        near_pair = [(False, True), (True, False), (False, False), (True, True)][(r // 2) % 4]
+        R.add_multi(make_multicell(rng, v, topo, near_pair, rng.choice(DELAYMODES)), "multi-cell")
+    R.flush()
+
     ex.rule = ("(1) every pre/post spike history of a 1x1 dense cell of length T (quick 5, thorough 7; comparisons after every step cover all "
                "shorter histories), trainer variant / sign mode / trace mode / delay mode rotating over the histories; (2) a dense 2^T x 2^T "
                "layer in which synapse (i -> j) carries pre history i and post history j, once per configuration; (3) random histories on "
                "dense / direct / lateral / conv cells with batches 1-4, sum / mean reductions, per-synapse delays, scalar and per-sample "
-               "signals, update() every step or at the end.  One case = one weight's run; non-trivial = at least one pre and one post "
+               "signals, update() every step or at the end; (4) two-episode runs separated by update() + trainer.clear(keepshape=True|False) + "
+               "synapse.clear(), the second episode judged against the pair sum of its own spikes; (5) one trainer with two cells sharing a "
+               "postsynaptic group or a connection and different per-cell overrides, each cell judged against its own pair sum.  One case = one weight's run; non-trivial = at least one pre and one post "
                "spike in its receptive field; distinct = distinct (configuration, delay, history)")
     return ex
 
@@ -604,6 +826,16 @@ def replay(ctx, data) -> int:
         print("no failing input recorded:", data.get("broken"))
         return 1
     case = fi["case"]
+    if "multi" in case:
+        ex = Exploration()
+        R = Runner(ctx, ex)
+        R.add_multi(case, "replay")
+        R.flush()
+        for f in ex.findings:
+            print("DISAGREEMENT", f.kind, f.key, f.what)
+        if not ex.findings:
+            print("both cells show their own pair sums")
+        return 1 if ex.findings else 0
     real = run_real(case)
     if "exc" in real:
         print(f"trainer raised at step {real['step']}: {real['exc']}")
